@@ -224,6 +224,18 @@ func runCase(drv *lean.Driver, reg *metrics.Metrics, rt *router.Router, hp *http
 			return "router returned no completion", fmt.Sprint(cqe.Error), true
 		}
 		matched := cqe.Completion.Router.Matched
+		// direct C19 check, independent of the model: a routing tag that is not JSON at all is a plain string and is
+		// kept as a logical name
+		if c.Tag != nil && !json.Valid([]byte(*c.Tag)) {
+			var name string
+			if !matched {
+				return "a plain-string routing tag was not routed", fmt.Sprintf("tag %q is not JSON, so it is a logical name; the router did not match it", *c.Tag), true
+			}
+			if err := json.Unmarshal(cqe.Completion.Router.Recv, &name); err != nil || name != *c.Tag {
+				return "a plain-string routing tag was not kept as the logical name", fmt.Sprintf("tag %q stored as %s", *c.Tag, cqe.Completion.Router.Recv), true
+			}
+			counts["plain_string_tags"]++
+		}
 		if matched != (rep["matched"] == true) {
 			return "router match decision differs", fmt.Sprintf("tag %q: impl matched=%v model=%v", deref(c.Tag), matched, rep["matched"]), false
 		}
